@@ -804,9 +804,17 @@ func verifLemmaProgress(g *Graph, t *Task) {}
 //@   trusted lexical path confinement + os.Stat (string algebra; see the bounded stand-in of C20)
 //@   ensures [true] true
 //@   modifies nothing
-//@ func captureResultEvidence
-//@   trusted reads the file, hashes it (sha256), stats it, reads .git/HEAD
+//@ func os.ReadFile
+//@   trusted read of a whole file: returns its bytes (fileData of the path, at that moment) or an error; changes nothing
+//@   ensures [bytes] ret1 == nil ==> content(ret0) == fileData(arg0)
+//@   ensures [fresh] ret0 == nil || fresh(ret0)
+//@   modifies nothing
+//@ func getGitHead
+//@   trusted reads .git/HEAD and the ref it names (best-effort provenance string; string algebra)
 //@   ensures [true] true
+//@   modifies nothing
+//@ func captureResultEvidence
+//@   ensures [hash-of-content] ret1 == nil ==> ret0.Sha256AtAttach == sha256hex(fileData(pathJoin(repoDir, relPath)))
 //@   modifies nothing
 //@ func writeResultEvent$1
 //@   requires [ex] lk == 2
@@ -822,6 +830,8 @@ func verifLemmaProgress(g *Graph, t *Task) {}
 //@        dec_ResultEvent(content(appended[0].Data)).MtimeAtAttach == evidence.MtimeAtAttach &&
 //@        dec_ResultEvent(content(appended[0].Data)).GitCommitAtAttach == evidence.GitCommitAtAttach &&
 //@        dec_ResultEvent(content(appended[0].Data)).Summary == trimSpace(summary)
+//@   ensures [hash-of-file] ret == nil ==> decOK_ResultEvent(content(appended[0].Data)) &&
+//@        dec_ResultEvent(content(appended[0].Data)).Sha256AtAttach == sha256hex(fileData(pathJoin(repoDir, cleanPath)))
 //@   ensures [fail-appended] ret != nil ==> appended == old(appended)
 //@   ensures [event-allocated] ret == nil ==> allocated(appended)
 //@   modifies ghost logv, ghost commits, ghost appended, ghost logWrites, ghost tailTorn, ghost tmpStage, ghost readEpoch
